@@ -8,6 +8,7 @@ import (
 
 func init() {
 	verifRegister("VerifC01_KNum", VerifC01_KNum)
+	verifRegister("VerifC01_KNum3", VerifC01_KNum3)
 	verifRegister("VerifC01_KCmp", VerifC01_KCmp)
 	verifRegister("VerifC01_ECore", VerifC01_ECore)
 	verifRegister("VerifC01_EArgs", VerifC01_EArgs)
@@ -129,6 +130,36 @@ func VerifC01_KNum() {
 	}
 	vCover("end")
 }
+
+// + - * on THREE operands: "returns int if all args are ints; otherwise float" -- with any float
+// operand the result is the float sum / difference / product of ALL operands (each converted to
+// float64, combined left to right), whatever the position of the float: an int prefix is not
+// combined in wrap-around int arithmetic first.
+func VerifC01_KNum3() {
+	env := c01Setup()
+	ops := []string{"+", "-", "*"}
+	oi := vndChoice("op", len(ops))
+	a := c01Operand(env, "a", false)
+	b := c01Operand(env, "b", false)
+	c := c01Operand(env, "c", false)
+	r := env.LoadString("num3", "("+ops[oi]+" a b c)")
+	vObserve("op", ops[oi])
+	vAssert(!lisp.IsInternalPanic(r), "arithmetic never panics the host")
+	allInt := a.kind == 0 && b.kind == 0 && c.kind == 0
+	if allInt {
+		want := [](int){a.i + b.i + c.i, a.i - b.i - c.i, a.i * b.i * c.i}[oi]
+		vAssert(r.Type == lisp.LInt && r.Int == want, "all-int operands: wrap-around int arithmetic")
+		vCover("int")
+		return
+	}
+	x, y, z := a.fl(), b.fl(), c.fl()
+	want := [](float64){x + y + z, x - y - z, x * y * z}[oi]
+	vAssert(r.Type == lisp.LFloat, "a float operand anywhere makes the result a float")
+	vAssert(vFloatSame(r.Float, want), "the float result combines ALL operands as floats, left to right")
+	vCover("float")
+}
+
+func VerifC01_KNum3_Setup() { c01Setup() }
 
 // comparison of mixed operands after promotion; unary minus; zero-argument identities
 func VerifC01_KCmp() {
